@@ -73,6 +73,7 @@ def run(chk):
     rule_builtins(chk, res)
     rule_flow(chk)
     rule_namemap(chk)
+    rule_qualified_refs(chk)
 
 
 def rule_builtins(chk, res):
@@ -334,3 +335,38 @@ def rule_namemap(chk):
                     ok = any(x.get("k") == "Const" and x["path"].startswith(crate) and short(x["path"]) == "RESERVED_NAMES" for x in F.walk(a1))
         chk.ob("C15.seeded/%s-passes-its-list" % crate, ok, "NameMap::build(module, %s::RESERVED_NAMES, ..)" % crate if ok else
                "%s no longer passes its own RESERVED_NAMES to NameMap::build" % crate, crate)
+
+
+def rule_qualified_refs(chk):
+    """References to declarations that can live in a namespace are printed qualified: every GenerateContext helper that
+    returns a ScopedName for an IR id builds it from NameMap::get_name_qualified and never from a leaf name
+    (NameMap::get_name_leaf, directly or through a leaf helper) - a leaf name looked up at the use site can bind to a
+    same-named entity of another scope."""
+    f = chk.facts
+    for tgt, crate, floor in (("hlsl", "rssl_hlsl", 5), ("msl", "rssl_msl", 4)):
+        helpers = [b for b in f.crates[crate]["bodies"] if b.get("kind") == "AssocFn" and "GenerateContext" in (b.get("self_ty") or b["path"]) and
+                   "thir" in b and short((b.get("ret") or "").split("<")[1].split(",")[0] if "Result<" in (b.get("ret") or "") else (b.get("ret") or "")) == "ScopedName"]
+        by_path = {b["path"]: b for b in f.crates[crate]["bodies"] if "thir" in b}
+
+        def closure(b, depth=0, seen=None):
+            seen = seen if seen is not None else set()
+            out = set()
+            for c in F.exprs(b["thir"], "Call"):
+                fn = c.get("rfn") or c.get("fn") or ""
+                out.add(fn)
+                if fn in by_path and fn not in seen and depth < 3:
+                    seen.add(fn)
+                    out |= closure(by_path[fn], depth + 1, seen)
+            return out
+        n = 0
+        for b in helpers:
+            cl = closure(b)
+            q = any(short(x) == "get_name_qualified" for x in cl)
+            leaf = any(short(x) == "get_name_leaf" for x in cl)
+            n += 1
+            ok = q and not leaf
+            chk.ob("C15.ref/%s/%s" % (tgt, b["name"]), ok, "qualified name from NameMap::get_name_qualified" if ok else
+                   "%s::%s returns a ScopedName that %s: a reference to a namespaced declaration loses its namespace and can bind to a same-named entity of another scope"
+                   % (tgt, b["name"], "is built from a leaf name (NameMap::get_name_leaf)" if leaf else "does not come from NameMap::get_name_qualified"), where(b),
+                   sample={"helper": b["name"], "qualified": q, "leaf": leaf})
+        chk.floor("C15.floor/%s/qualified-helpers" % tgt, n, floor, "ScopedName-returning name helpers", crate)
